@@ -287,19 +287,20 @@ func Chdir(dir string) error {
 // File wraps *os.File: writes, reads, Sync and Close are operations.
 type File struct {
 	*os.File
+	dir *dirState // directory entries still to be handed out (see Readdirnames)
 }
 
 var (
-	Stdin  = &File{os.Stdin}
-	Stdout = &File{os.Stdout}
-	Stderr = &File{os.Stderr}
+	Stdin  = &File{File: os.Stdin}
+	Stdout = &File{File: os.Stdout}
+	Stderr = &File{File: os.Stderr}
 )
 
 func wrap(f *os.File, err error) (*File, error) {
 	if f == nil {
 		return nil, err
 	}
-	return &File{f}, err
+	return &File{File: f}, err
 }
 
 func Create(name string) (*File, error) {
@@ -343,7 +344,7 @@ func NewFile(fd uintptr, name string) *File {
 	if f == nil {
 		return nil
 	}
-	return &File{f}
+	return &File{File: f}
 }
 
 func (f *File) std() bool {
@@ -481,4 +482,97 @@ func (f *File) Truncate(size int64) error {
 		return perr("truncate", f.File.Name(), v.errn)
 	}
 	return f.File.Truncate(size)
+}
+
+// ---- directory order ----
+//
+// File.Readdirnames / Readdir / ReadDir return entries "in directory order",
+// which on a real file system is a hash order with a per-volume seed or the
+// order of creation: a source of nondeterminism like map iteration.  The
+// seam reads the whole directory once, and hands the entries out in an order
+// the plan decides (os.ReadDir, which sorts, is left alone).
+
+type dirState struct {
+	ents []fs.DirEntry
+}
+
+func (f *File) dirEntries() (*dirState, error) {
+	if f.dir != nil {
+		return f.dir, nil
+	}
+	ents, err := f.File.ReadDir(-1)
+	if err != nil && len(ents) == 0 {
+		return nil, err
+	}
+	// canonical order first, then the plan's permutation
+	for i := 1; i < len(ents); i++ {
+		for j := i; j > 0 && ents[j].Name() < ents[j-1].Name(); j-- {
+			ents[j], ents[j-1] = ents[j-1], ents[j]
+		}
+	}
+	x := simrt.ThePlan.Rand ^ 0x9e3779b97f4a7c15
+	for _, c := range []byte(f.File.Name()) {
+		x = (x ^ uint64(c)) * 1099511628211
+	}
+	switch simrt.ThePlan.Map.Policy {
+	case "", "identity":
+	case "reverse":
+		for i, j := 0, len(ents)-1; i < j; i, j = i+1, j-1 {
+			ents[i], ents[j] = ents[j], ents[i]
+		}
+	default:
+		for i := len(ents) - 1; i > 0; i-- {
+			x ^= x << 13
+			x ^= x >> 7
+			x ^= x << 17
+			j := int(x % uint64(i+1))
+			ents[i], ents[j] = ents[j], ents[i]
+		}
+	}
+	simrt.Logf("dir-order %s n=%d", simrt.Rel(f.File.Name()), len(ents))
+	f.dir = &dirState{ents: ents}
+	return f.dir, nil
+}
+
+func (f *File) take(n int) ([]fs.DirEntry, error) {
+	d, err := f.dirEntries()
+	if err != nil {
+		return nil, err
+	}
+	if n <= 0 {
+		out := d.ents
+		d.ents = nil
+		return out, nil
+	}
+	if len(d.ents) == 0 {
+		return nil, io.EOF
+	}
+	if n > len(d.ents) {
+		n = len(d.ents)
+	}
+	out := d.ents[:n]
+	d.ents = d.ents[n:]
+	return out, nil
+}
+
+func (f *File) ReadDir(n int) ([]fs.DirEntry, error) { return f.take(n) }
+
+func (f *File) Readdirnames(n int) ([]string, error) {
+	ents, err := f.take(n)
+	names := make([]string, 0, len(ents))
+	for _, e := range ents {
+		names = append(names, e.Name())
+	}
+	return names, err
+}
+
+func (f *File) Readdir(n int) ([]fs.FileInfo, error) {
+	ents, err := f.take(n)
+	infos := make([]fs.FileInfo, 0, len(ents))
+	for _, e := range ents {
+		if fi, e2 := e.Info(); e2 == nil {
+			infos = append(infos, fi)
+		}
+	}
+	return infos, err
 }
